@@ -618,6 +618,8 @@ class ScipyMinimizeAlgorithm(
         states = {}
         for idx in dataset.indices:
             states[idx] = state.clone(disable_auto_fork=True)
+            # individual latent values possibly left in the model state (e.g. after a fit) are irrelevant here
+            states[idx].put_individual_latent_variables(None)
             model.put_data_variables(states[idx], datasets[idx])
             # Get an individual initial value for minimisation
             model.put_individual_parameters(states[idx], datasets[idx])
